@@ -1,7 +1,18 @@
-(* Comparators for the C07 correspondence: the model's run of a posting
-   sequence against what the implementation produced. *)
+(* Comparators for the C07 correspondence: the model's run of a posting sequence against what
+   the implementation produced.
+
+   What C07 constrains is compared exactly: which posts are accepted / refused, and the set of
+   user assignments that extend to a model of the generated CNF.  What it leaves open is not: the
+   order of the clauses and of the literals in a clause, repetitions, the numbering of the diagram
+   nodes (robdd_<id>), the order in which names were registered (solver numbering), the order of
+   the `codified` bookkeeping, the numbering of the at-most-one links (aux_<n>).  [structural_ok]: the implementation's CNF is the model's CNF as a
+   set of clauses (sets of literals) after translating the node ids through the store entries
+   (Cases/CmpC07Set.v) - then C07_post_exact speaks about the implementation's CNF itself.  When the
+   form differs (another numbering of the at-most-one links, another but equivalent diagram ...)
+   [sem_ok] decides: the assignments observed to extend (PySAT under assumptions; all 2^n for up to
+   10 user variables) must be exactly those the model's theorem predicts (PB/SatBool.v). *)
 From Coq Require Import ZArith List Bool String.
-From FrameModel Require Import PB.Expr PB.Cnf PB.Amo PB.Robdd PB.Codify PB.Sat.
+From FrameModel Require Import PB.Expr PB.Cnf PB.Amo PB.Robdd PB.Codify PB.Sat PB.SatBool Cases.CmpC07Set.
 Import ListNotations.
 
 Fixpoint leqb {A} (f : A -> A -> bool) (a b : list A) : bool :=
@@ -20,13 +31,42 @@ Record c07_obs := mkObs {
   o_status : list status
 }.
 
-Definition c07_check (m0 : memory) (ps : list post) (o : c07_obs) : bool :=
+(* the observed extendability of user assignments (bit j of a mask = variable j of [users]) *)
+Inductive c07_sem :=
+| SemNone
+| SemFull (users : list string) (bits : N)                 (* all 2^n masks: bit m of bits *)
+| SemTable (users : list string) (tab : list (N * bool)).  (* some masks *)
+Definition sem_ok (sem : c07_sem) (ps : list post) (sts : list status) : bool :=
+  match sem with
+  | SemNone => false
+  | SemFull u b => sem_full u ps sts b
+  | SemTable u tab => sem_table u ps sts tab
+  end.
+
+(* [mi]: the implementation's whole store (its order); [m], [s]: the model's *)
+Definition structural_ok (mi m : memory) (s : mgr) (o : c07_obs) : bool :=
+  match node_map m mi with
+  | None => false
+  | Some phi =>
+      nodes_known phi (o_clauses o) &&
+      cnf_seteqb_aux (clauses s) (ren_cnf phi (o_clauses o)) (vtable s) (map (ren_var phi) (o_vtable o)) &&
+      Nat.eqb (auxcount s) (o_aux o) &&
+      nats_seteqb (codified s)
+                  (map (fun id => match phi_get phi id with Some j => j | None => id end) (o_codified o))
+  end.
+
+Definition c07_check (m0 : memory) (ps : list post) (o : c07_obs) (sem : c07_sem) : bool :=
   match run_posts m0 empty_mgr ps with
   | None => false
   | Some (m, s, sts) =>
-      leqb node_eqb m (m0 ++ o_newmem o) && leqb (leqb lit_eqb) (clauses s) (o_clauses o) &&
-      Nat.eqb (auxcount s) (o_aux o) && leqb Nat.eqb (codified s) (o_codified o) &&
-      leqb var_eqb (vtable s) (o_vtable o) && leqb status_eqb sts (o_status o)
+      leqb status_eqb sts (o_status o) &&
+      (if structural_ok (m0 ++ o_newmem o) m s o then true else sem_ok sem ps sts)
+  end.
+(* the two parts separately (statistics, replay files) *)
+Definition c07_structural (m0 : memory) (ps : list post) (o : c07_obs) : bool :=
+  match run_posts m0 empty_mgr ps with
+  | None => false
+  | Some (m, s, sts) => structural_ok (m0 ++ o_newmem o) m s o
   end.
 (* which part differs (for replay files) *)
 Definition c07_show (m0 : memory) (ps : list post) :=
